@@ -15,7 +15,7 @@
 From Verif Require Import Base.GoSem Base.F32 Geom.Matrix
   Draw.Links Draw.LinksSpec Draw.LinksProofs Draw.LinksTree Draw.LinksTreeProofs
   Draw.Bookmarks Draw.BookmarkSpec Draw.BookmarksProofs
-  Draw.Protocol Draw.ProtocolProofs Draw.Emit Draw.EmitProofs
+  Draw.Protocol Draw.ProtocolProofs Draw.ProtocolMore Draw.Emit Draw.EmitProofs
   Draw.Meta Draw.MetaProofs Draw.Tiling Draw.TilingProofs.
 From Coq Require Import QArith List ZArith NArith Permutation.
 Import ListNotations.
@@ -324,3 +324,19 @@ Example C14_protocol_example :
   (* painting into a group that is never composited *)
   /\ accept [CAddPage 1 (K 4); CNewGroup 1 2 (K 4); CRect 2 (K 4); CPaint 2 4]%N = false.
 Proof. vm_compute. repeat split; reflexivity. Qed.
+
+(* final round: monotonicity laws of the protocol automaton (Draw/ProtocolMore.v) *)
+Theorem C14_run_closed_mono : forall t st st',
+  run st t = Some st' -> closed st = true -> closed st' = true.
+Proof. exact run_closed_mono. Qed.
+Print Assumptions C14_run_closed_mono.
+
+Theorem C14_run_npages_mono : forall t st st',
+  run st t = Some st' -> (npages st <= npages st')%N.
+Proof. exact run_npages_mono. Qed.
+Print Assumptions C14_run_npages_mono.
+
+Theorem C14_no_addpage_after_doc : forall t st st' k a,
+  run st t = Some st' -> closed st = true -> run st (t ++ [CAddPage k a]) = None.
+Proof. exact no_addpage_after_doc. Qed.
+Print Assumptions C14_no_addpage_after_doc.
